@@ -1,4 +1,5 @@
-(** C19 — facts about the command level: HandleSearch's CHARSET handling. *)
+(** C19 — facts about the command level: SearchSelectedMailbox's CHARSET
+    handling, for SEARCH and UID SEARCH alike. *)
 From Coq Require Import String Ascii List Bool Arith NArith ZArith Lia.
 From Raven Require Import Base.GoStr Model.Search.
 Import ListNotations.
@@ -9,41 +10,51 @@ Proof. intros N. destruct (str_eqb_spec a b); congruence. Qed.
 
 (** any charset other than US-ASCII / UTF-8 is refused with NO, whatever the
     text operations, the rest of the command and the mailbox are *)
+Lemma badcharset_args :
+  forall (T : text_ops) (kwd cs : str) (rest : list str) (by_uid : bool) (msgs : list msg),
+    to_upper kwd = S_ "CHARSET" ->
+    to_upper cs <> S_ "US-ASCII" -> to_upper cs <> S_ "UTF-8" ->
+    search_selected T (kwd :: cs :: rest) by_uid msgs = RNo.
+Proof.
+  intros T kwd cs rest by_uid msgs Hk H1 H2.
+  unfold search_selected. cbn [length Nat.ltb Nat.leb nth andb]. rewrite Hk. rewrite str_eqb_refl. cbn [andb].
+  rewrite (str_eqb_false _ _ H1), (str_eqb_false _ _ H2). reflexivity.
+Qed.
+
 Lemma badcharset_no :
   forall (T : text_ops) (tag cmd kwd cs : str) (rest : list str) (msgs : list msg),
     to_upper kwd = S_ "CHARSET" ->
     to_upper cs <> S_ "US-ASCII" -> to_upper cs <> S_ "UTF-8" ->
     handle_search T (tag :: cmd :: kwd :: cs :: rest) msgs = RNo.
-Proof.
-  intros T tag cmd kwd cs rest msgs Hk H1 H2.
-  unfold handle_search.
-  replace (Z.of_nat (length (tag :: cmd :: kwd :: cs :: rest)) <? 3) with false
-    by (symmetry; apply Z.ltb_ge; simpl length; lia).
-  replace (3 <? Z.of_nat (length (tag :: cmd :: kwd :: cs :: rest))) with true
-    by (symmetry; apply Z.ltb_lt; simpl length; lia).
-  cbn [nth andb]. rewrite Hk. rewrite str_eqb_refl. cbn [andb].
-  rewrite (str_eqb_false _ _ H1), (str_eqb_false _ _ H2). reflexivity.
-Qed.
+Proof. intros. unfold handle_search. cbn [skipn]. now apply badcharset_args. Qed.
+
+Lemma uid_badcharset_no :
+  forall (T : text_ops) (tag uid cmd kwd cs : str) (rest : list str) (msgs : list msg),
+    to_upper kwd = S_ "CHARSET" ->
+    to_upper cs <> S_ "US-ASCII" -> to_upper cs <> S_ "UTF-8" ->
+    handle_uid_search T (tag :: uid :: cmd :: kwd :: cs :: rest) msgs = RNo.
+Proof. intros. unfold handle_uid_search. cbn [skipn]. now apply badcharset_args. Qed.
 
 (** the supported charsets do not change the result: the charset is dropped *)
+Lemma charset_dropped_args :
+  forall (T : text_ops) (kwd cs k : str) (rest : list str) (by_uid : bool) (msgs : list msg),
+    to_upper kwd = S_ "CHARSET" ->
+    (to_upper cs = S_ "US-ASCII" \/ to_upper cs = S_ "UTF-8") ->
+    to_upper k <> S_ "CHARSET" ->
+    search_selected T (kwd :: cs :: k :: rest) by_uid msgs = search_selected T (k :: rest) by_uid msgs.
+Proof.
+  intros T kwd cs k rest by_uid msgs Hk Hcs Hn.
+  unfold search_selected. cbn [length Nat.ltb Nat.leb nth andb]. rewrite Hk, str_eqb_refl. rewrite (str_eqb_false _ _ Hn).
+  rewrite andb_false_r. cbn [andb].
+  assert (E : negb (str_eqb (to_upper cs) (S_ "US-ASCII")) && negb (str_eqb (to_upper cs) (S_ "UTF-8")) = false).
+  { destruct Hcs as [-> | ->]; reflexivity. }
+  rewrite E. cbn [skipn]. reflexivity.
+Qed.
+
 Lemma charset_dropped :
   forall (T : text_ops) (tag cmd kwd cs k : str) (rest : list str) (msgs : list msg),
     to_upper kwd = S_ "CHARSET" ->
     (to_upper cs = S_ "US-ASCII" \/ to_upper cs = S_ "UTF-8") ->
     to_upper k <> S_ "CHARSET" ->
     handle_search T (tag :: cmd :: kwd :: cs :: k :: rest) msgs = handle_search T (tag :: cmd :: k :: rest) msgs.
-Proof.
-  intros T tag cmd kwd cs k rest msgs Hk Hcs Hn.
-  unfold handle_search.
-  replace (Z.of_nat (length (tag :: cmd :: kwd :: cs :: k :: rest)) <? 3) with false
-    by (symmetry; apply Z.ltb_ge; simpl length; lia).
-  replace (3 <? Z.of_nat (length (tag :: cmd :: kwd :: cs :: k :: rest))) with true
-    by (symmetry; apply Z.ltb_lt; simpl length; lia).
-  replace (Z.of_nat (length (tag :: cmd :: k :: rest)) <? 3) with false
-    by (symmetry; apply Z.ltb_ge; simpl length; lia).
-  cbn [nth andb]. rewrite Hk, str_eqb_refl. rewrite (str_eqb_false _ _ Hn). rewrite andb_false_r.
-  cbn [andb].
-  assert (E : negb (str_eqb (to_upper cs) (S_ "US-ASCII")) && negb (str_eqb (to_upper cs) (S_ "UTF-8")) = false).
-  { destruct Hcs as [-> | ->]; reflexivity. }
-  rewrite E. cbn [length Nat.leb skipn]. reflexivity.
-Qed.
+Proof. intros. unfold handle_search. cbn [skipn]. now apply charset_dropped_args. Qed.
